@@ -101,6 +101,8 @@ def generate(tier):
         for assign in assignments(sh, 'om'):
             for ctx in CTX[1:]:
                 cases.append(build(sh, assign, 'C', ctx=ctx))
+                if not (sh.kind == 'struct' and 'm' in ''.join(assign)):
+                    cases.append(build(sh, assign, 'CC' if ctx.endswith('before') else 'CC2', ctx=ctx))
     seen, out = set(), []
     for c in cases:
         if c.key not in seen:
